@@ -927,20 +927,20 @@ func writeEvidence(prop string, cfg propCfg, tier string, seed uint64, a *agg, s
 var expectedProbes = map[string][]string{
 	"C01": {"c01-request-checked", "c01-protected-write-bound-true", "c01-protected-write-bound-false", "c01-request-from-second-feature-of-same-type-and-role", "c01-dst-device-omitted", "c01-dst-device-other", "mirror-responses-counted"},
 	"C02": {"c02-update-compared", "c02-fn-networkManagementEntityDescriptionListData", "c02-fn-measurementSeriesListData", "c02-selector-names-list-valued-element", "c02-shape-delete-elements+partial-selector", "c02-delete-selector-names-part-of-identifier"},
-	"C03": {"write-authorised", "write-unauthorised", "write-notified-subscriber", "write-source-device-omitted", "peer-announced-known-entity-again", "write-function-element-names-function-of-other-writability"},
+	"C03": {"write-authorised", "write-unauthorised", "write-notified-subscriber", "write-source-device-omitted", "peer-announced-known-entity-again", "write-function-element-names-function-of-other-writability", "actor-delete-omits-client-device"},
 	"C04": {"c04-write-accepted", "c04-write-rejected", "c04-twin-checked", "c04-protected-element-present", "c04-shape-delete-selector+partial-selector", "c04-stored-element-without-identifier", "c04c-race-checked", "c04c-write-overlapped-local-update"},
 	"C05": {"c05-mutated-message-handled", "c05-node-management-registry-call", "c05-messages-before-discovery", "c05-probe-read-answered", "c05-function-element-names-another-function", "gen-structured-selector-member", "c05-discovery-read-during-traffic"},
 	"C06": {"c06-add-and-remove-in-one-notification", "c06-remove-unknown-entity", "c06-repeated-announcement", "mirror-tree-compared", "mirror-use-cases-compared", "mirror-link-restored", "mirror-tree-change"},
-	"C07": {"goaf-calls-overlapped", "c07-discovery-reply-checked", "c07-read-overlapped-tree-change", "c07-subscription-before-discovery-reply", "c07-other-peer-unsubscribed", "c07-subscription-repeated", "c07-description-changed"},
-	"C08": {"fanout-notify-to-subscriber", "reg-server-device-omitted", "duplicate-subscribe-refused", "entity-removal-names-unknown-entity-first", "c08r-payload-compared", "mirror-data-compared", "mirror-write", "c08-left-before-discovery", "reg-delete-names-other-device"},
+	"C07": {"goaf-calls-overlapped", "c07-discovery-reply-checked", "c07-read-overlapped-tree-change", "c07-subscription-before-discovery-reply", "c07-other-peer-unsubscribed", "c07-subscription-repeated", "c07-description-changed", "c07-reply-mixes-moments-within-an-entity"},
+	"C08": {"fanout-notify-to-subscriber", "reg-server-device-omitted", "duplicate-subscribe-refused", "entity-removal-names-unknown-entity-first", "c08r-payload-compared", "mirror-data-compared", "mirror-write", "c08-left-before-discovery", "reg-delete-names-other-device", "c08r-remote-write-accepted"},
 	"C09": {"bind-granted", "two-bind-requests-for-one-feature-overlapped", "reg-server-device-omitted", "reg-requested-type-differs", "reg-delete-names-other-device"},
-	"C10": {"teardown-with-state", "approval-verdict-given", "approval-left-pending", "mirror-teardown-observed", "c10-address-less-peer-removed-with-pending-write"},
+	"C10": {"teardown-with-state", "approval-verdict-given", "approval-left-pending", "mirror-teardown-observed", "c10-address-less-peer-removed-with-pending-write", "peers-with-prefix-related-device-addresses"},
 	"C11": {"c11-snapshot-verified", "c11-non-persisting-update-checked", "c11-reader-pass", "c11h-snapshot-verified"},
-	"C12": {"c12-expect-applied", "c12-expect-error", "verdict-overlapped-timeout", "several-writes-on-one-feature", "c12r-second-write-partly-approved", "c12r-first-write-partly-approved", "c12d-later-round-decided", "c12d-later-round-refused"},
+	"C12": {"c12-expect-applied", "c12-expect-error", "verdict-overlapped-timeout", "several-writes-on-one-feature", "c12r-second-write-partly-approved", "c12r-first-write-partly-approved", "c12d-later-round-decided", "c12d-later-round-refused", "c12t-write-decided", "c12t-write-approved"},
 	"C13": {"c13-overlapping-sends", "c13w-request-from-callback", "c13w-request-withheld", "more-than-64-unanswered-requests", "more-than-100-notifications", "c13-response-references-a-notification", "c13-many-answered-requests-first"},
-	"C14": {"c14-callback-fired-once", "c14-registration-overlapped-arrival", "c14-key-shared-between-peers", "c14-bystander-removed", "mirror-callback-fired-once", "mirror-answer-overtook-registration"},
+	"C14": {"c14-callback-fired-once", "c14-registration-overlapped-arrival", "c14-key-shared-between-peers", "c14-bystander-removed", "mirror-callback-fired-once", "mirror-answer-overtook-registration", "c14-many-result-callbacks"},
 	"C15": {"c15-delivery-checked", "c15-subscription-change-overlapped-publish", "c15-unsubscribe-inside-handler", "c15-last-peer-removed", "c15-core-handler-unsubscribed-inside-handler"},
-	"C16": {"c16-refresh-observed", "c16-running-span-checked", "c16-stopped-at-end-checked", "c16-announced-timeout-below-configured"},
+	"C16": {"c16-refresh-observed", "c16-running-span-checked", "c16-stopped-at-end-checked", "c16-announced-timeout-below-configured", "mirror-heartbeat-received", "mirror-heartbeat-span-checked", "mirror-heartbeat-cache-compared"},
 	"C17": {"c17-api-calls", "c17-approval-callback", "c17-hot-write", "c17-description-changed", "c17-discovery-read"},
 	"C20": {"c20-concurrent-entities", "c20-has-checked", "c20-peer-read-checked"},
 }
